@@ -54,6 +54,10 @@ type seqCase struct {
 	// rule reload whose statistics (all empty, all created at T0) may be handed over to Rules
 	Prologue [][]ruleT `json:"prologue,omitempty"`
 	Ops      []opT     `json:"ops"`
+	// LoadMode: 0 = flow.LoadRules for prologue and rules; 1 = flow.LoadRulesOfResource per resource
+	// (in LoadOrder) for both; 2 = prologue through LoadRules, rules per resource
+	LoadMode  int   `json:"load_mode,omitempty"`
+	LoadOrder []int `json:"load_order,omitempty"`
 	TF    uint64    `json:"tf"`
 }
 
@@ -244,6 +248,8 @@ func genSeq(r *rng.R, id int) seqCase {
 		live = append(live, i) // whether it was admitted is known only at run time
 	}
 	c.TF = now + uint64(r.PickI(0, 0, 1, 499, 500, 1000, 9999, 10000, 30000))
+	c.LoadMode = int(r.PickI(0, 0, 1, 1, 2))
+	c.LoadOrder = r.Perm(c.NRes)
 	return c
 }
 
@@ -312,14 +318,28 @@ func nodePass(id, res int) (int64, bool) {
 
 func runSeq(c seqCase, clk *vclock.Clock) (obs []obsT, nodeAfter []int64, fin []finT) {
 	clk.SetMs(c.T0)
-	if len(c.Prologue) > 0 {
-		if _, err := flow.LoadRules(mkRules(c.ID, c.Prologue)); err != nil {
-			panic(err)
+	loadAll := func(rules [][]ruleT, perRes bool) {
+		if !perRes {
+			if _, err := flow.LoadRules(mkRules(c.ID, rules)); err != nil {
+				panic(err)
+			}
+			return
+		}
+		for _, ri := range c.LoadOrder {
+			if ri >= len(rules) || len(rules[ri]) == 0 {
+				continue
+			}
+			one := make([][]ruleT, len(rules))
+			one[ri] = rules[ri]
+			if _, err := flow.LoadRulesOfResource(resName(c.ID, ri), mkRules(c.ID, one)); err != nil {
+				panic(err)
+			}
 		}
 	}
-	if _, err := flow.LoadRules(mkRules(c.ID, c.Rules)); err != nil {
-		panic(err)
+	if len(c.Prologue) > 0 {
+		loadAll(c.Prologue, c.LoadMode == 1)
 	}
+	loadAll(c.Rules, c.LoadMode != 0)
 	entries := make([]*base.SentinelEntry, len(c.Ops))
 	for i, o := range c.Ops {
 		clk.SetMs(o.T)
@@ -963,7 +983,7 @@ func main() {
 	clk.Install()
 	root := rng.New(a.Seed)
 	rep := emit.NewReport("C02", a.Seed, a.Tier)
-	rep.Rule = "sequential: 1-3 resources, 0-3 reject/direct rules each (thresholds 0, fractional, small, large, invalid, Inf, NaN; StatIntervalInMs 0,1000,2000,2500,250,300,750,20000,1500,3000,500,5000,10000,1,7; associated-resource rules), 8-45 Entry/Exit operations under the virtual clock with time steps 0, small, to bucket/window boundaries -1/0/+1, whole windows, idle gaps longer than the 10 s array; concurrent: k=2-4 goroutines parked at the chain yield between rule check and statistics, random interleavings with clock ticks; reload: in a share of the cases sibling rules are loaded just before the case's rules (statistic reuse), incl. several rules of one resource on the same independent interval; reset: the first request after whole idle array cycles is stepped through the yields of the bucket reset (110-113, 104) while other requests run their rule check against a slot holding up to T tokens from exactly one cycle earlier. Non-trivial = at least one admission, one rejection and one 500 ms bucket boundary crossed (sequential) / at least two requests simultaneously inside the admission path (concurrent); distinct by full input."
+	rep.Rule = "sequential: 1-3 resources, 0-3 reject/direct rules each (thresholds 0, fractional, small, large, invalid, Inf, NaN; StatIntervalInMs 0,1000,2000,2500,250,300,750,20000,1500,3000,500,5000,10000,1,7; associated-resource rules), 8-45 Entry/Exit operations under the virtual clock with time steps 0, small, to bucket/window boundaries -1/0/+1, whole windows, idle gaps longer than the 10 s array; concurrent: k=2-4 goroutines parked at the chain yield between rule check and statistics, random interleavings with clock ticks; rules go in through flow.LoadRules or, per resource in a random order, flow.LoadRulesOfResource; reload: in a share of the cases sibling rules are loaded just before the case's rules (statistic reuse), incl. several rules of one resource on the same independent interval; reset: the first request after whole idle array cycles is stepped through the yields of the bucket reset (110-113, 104) while other requests run their rule check against a slot holding up to T tokens from exactly one cycle earlier. Non-trivial = at least one admission, one rejection and one 500 ms bucket boundary crossed (sequential) / at least two requests simultaneously inside the admission path (concurrent); distinct by full input."
 	nSeqCorr := a.Pick(a.N, 150, 3000)
 	nConcCorr := a.Pick(a.N, 40, 800)
 	nSeqMon := a.Pick(a.Mon, 3000, 60000)
@@ -1011,6 +1031,7 @@ func main() {
 		if len(c.Prologue) > 0 {
 			rep.Count("cases_with_reload_prologue", 1)
 		}
+		rep.Count("load_mode_"+strconv.Itoa(c.LoadMode), 1)
 		for _, rs := range c.Rules {
 			seen := map[uint32]int{}
 			for _, x := range rs {
